@@ -121,7 +121,7 @@ def scan_tokens(text):
             i += 1
             continue
         if text.startswith('/*', i):
-            j = text.find('*/', i + 3)
+            j = text.find('*/', i + 2)
             if j < 0:
                 return None
             line += text.count('\n', i, j + 2)
@@ -326,7 +326,7 @@ def lex_chunks(text):
             chunks.append(text[i:])
             break
         if text.startswith('/*', j):
-            k = text.find('*/', j + 3)
+            k = text.find('*/', j + 2)
             k = n if k < 0 else k + 2
         elif text.startswith('//', j):
             k = text.find('\n', j)
@@ -431,3 +431,71 @@ def shrink_doc(text, pred, max_tests=2500):
     if pred(''.join(norm)):
         small = ''.join(norm).strip()
     return small
+
+
+# ---- value-level comparison of significant tokens (C02) ----
+def unescape_py(body):
+    out = []
+    i = 0
+    n = len(body)
+    while i < n:
+        c = body[i]
+        if c == '\\' and i + 1 < n and body[i + 1] in '"\'\\nrt':
+            out.append({'"': '"', "'": "'", '\\': '\\', 'n': '\n', 'r': '\r', 't': '\t'}[body[i + 1]])
+            i += 2
+        elif c == '"' and i + 1 < n and body[i + 1] == '"':
+            out.append('"')
+            i += 2
+        else:
+            out.append(c)
+            i += 1
+    return ''.join(out)
+
+
+def number_value(tok):
+    """numeric meaning of a number lexeme: ('i', int) for integers / hex patterns, ('f', float) otherwise, None if not a number"""
+    t = tok
+    try:
+        if t[:2] in ('0x', '0X') and len(t) > 2:
+            return ('i', int(t[2:].lstrip('+'), 16))
+        if all(ch in '+-0123456789' for ch in t):
+            return ('i', int(t))
+        return ('f', float(t))
+    except ValueError:
+        return None
+
+
+def token_equiv(a, b):
+    """a, b = (kind, text, line): equal up to number / escape notation"""
+    if a[0] != b[0]:
+        # an integral float may be written as an integer and vice versa
+        if {a[0], b[0]} <= {'number'}:
+            pass
+        else:
+            return False
+    if a[0] in ('begin', 'end', 'ident'):
+        return a[1] == b[1]
+    if a[0] == 'string':
+        return unescape_py(a[1][1:-1]) == unescape_py(b[1][1:-1])
+    if a[0] == 'a2ml':
+        return a[1].replace('\r\n', '\n').strip() == b[1].replace('\r\n', '\n').strip()
+    if a[0] == 'number':
+        va, vb = number_value(a[1]), number_value(b[1])
+        if va is None or vb is None:
+            return a[1] == b[1]
+        if va[0] == 'i' and vb[0] == 'i':
+            return va[1] == vb[1]
+        return float(va[1]) == float(vb[1])
+    return a[1] == b[1]
+
+
+def first_token_difference(ta, tb):
+    """index and description of the first non-equivalent token, or None"""
+    for i, (a, b) in enumerate(zip(ta, tb)):
+        if not token_equiv(a, b):
+            return i, 'token %d: input %s %r (line %d) -> output %s %r' % (i, a[0], a[1][:40], a[2], b[0], b[1][:40])
+    if len(ta) != len(tb):
+        i = min(len(ta), len(tb))
+        extra = (ta[i] if len(ta) > len(tb) else tb[i])
+        return i, '%d tokens in, %d tokens out; first surplus %s token: %r' % (len(ta), len(tb), 'input' if len(ta) > len(tb) else 'output', extra[1][:40])
+    return None
